@@ -167,11 +167,17 @@ class Walker:
                 if cur.get('was_detached') and cid and st not in (S_DETACHED, S_CLOSED, S_FAILED):
                     self.tags.add('reattached-after-detach')
             elif att == 'dangling':
-                st = self.pick([(50, S_DETACHED), (30, S_CLOSED), (20, S_FAILED)])
+                st = self.pick([(45, S_DETACHED), (28, S_CLOSED), (19, S_FAILED), (5, S_REMAP), (3, S_SENTCONNECT)])
                 cid = rng.choice([0, cur['was_on'], cur['was_on'], rng.choice(self.cids)])
+                if st in (S_REMAP, S_SENTCONNECT):
+                    cid = 0                   # Tor reports it on no circuit without a DETACHED
+                    self.tags.add('circuit-id-0-while-attached')
             else:
                 st = self.pick([(10, S_SENTCONNECT), (15, S_REMAP), (30, S_SUCCEEDED), (20, S_DETACHED), (15, S_CLOSED), (10, S_FAILED)])
                 cid = att
+                if st in (S_SENTCONNECT, S_REMAP, S_SUCCEEDED) and rng.random() < 0.12:
+                    cid = 0                   # an attached stream reported with circuit id 0, no DETACHED before
+                    self.tags.add('circuit-id-0-while-attached')
             if st in (S_DETACHED, S_CLOSED, S_FAILED) and att is None:
                 cid = rng.choice([0, 0, rng.choice(self.cids)])
             if st in (S_CLOSED, S_FAILED, S_DETACHED) and att not in (None, 'dangling'):
@@ -245,6 +251,7 @@ def enumerate_histories(cids, sids, depth, resolve=False):
                     out.append((['s', s, S_REMAP, 0, 4, 80, [[L.K_SOURCE, 0]]], 'sets', s, (None, 4)))
                 elif a != 'd':
                     out.append((['s', s, S_SUCCEEDED, a, host, 80, []], 'sets', s, (a, host)))
+                    out.append((['s', s, S_REMAP, 0, 4, 80, []], 'sets', s, (None, 4)))
                 out.append((['s', s, S_DETACHED, a if isinstance(a, int) else 0, host, 80, [[L.K_REASON, 1]]], 'sets', s, (None, host)))
                 out.append((['s', s, S_CLOSED, 0, host, 80, [[L.K_REASON, 5]]], 'dels', s, None))
                 out.append((['s', s, S_FAILED, a if isinstance(a, int) else 0, host, 80, []], 'dels', s, None))
@@ -397,7 +404,8 @@ class P(core.Prop):
             '<= 5 circuit ids and <= 5 stream ids (also ids around the byte/16-bit boundaries), launch/extend/build/'
             'guard_wait/close/fail, new/remap/sentconnect/succeeded/detached/failed/closed, RESOLVE requests (newresolve, '
             'sentresolve on a circuit, remap, detach and retry on another circuit; live and in the snapshot), first sight in any '
-            'status, in 40% of the cases 1-2 application listeners that raise from one callback (registered before the bootstrap), '
+            'status, attached (or dangling) streams reported with circuit id 0 without a DETACHED (12% of their non-terminal events), '
+            'in 40% of the cases 1-2 application listeners that raise from one callback (registered before the bootstrap), '
             'in half of the cases build_circuit() calls (0-3 relays) at random positions and Tor\'s answer to the oldest one '
             '(250 EXTENDED n just after CIRC n LAUNCHED, for an announced circuit without hops, or before the first event '
             'of n; or 551), '
@@ -413,7 +421,7 @@ class P(core.Prop):
                'build_circuit() is called with objects that only have .id_hex, using_guards=False; the EXTENDCIRCUIT command is '
                'noted at TorControlProtocol.queue_command; the recorder added with addBoth to the returned Deferred']
     assumptions = ['Tor changes a stream\'s address only through REMAP and never its port; paths only grow between LAUNCHED events',
-                   'an attached stream changes circuit only through DETACHED; stream ids in NEW are fresh',
+                   'an attached stream changes circuit only through DETACHED or a report with circuit id 0; stream ids in NEW are fresh',
                    'no stream attacher is installed and the address map is empty (C09, C20)',
                    'pre-0.2.2 short names in paths are outside the envelope',
                    'Tor answers EXTENDCIRCUIT 0 with 250 EXTENDED n only for a circuit n it has (no hop reported yet) or is about '
@@ -481,7 +489,7 @@ class P(core.Prop):
         n = len(case['evs'])
         size = 'n<10' if n < 10 else 'n<30' if n < 30 else 'n<80' if n < 80 else 'n>=80'
         interesting = [t for t in ('circuit-closed-under-stream', 'stream-ended-after-its-circuit', 'reattached-after-detach',
-                                   'circ-id-reused', 'stream-id-reused', 'event-before-answer', 'answer-before-event',
+                                   'circ-id-reused', 'stream-id-reused', 'circuit-id-0-while-attached', 'event-before-answer', 'answer-before-event',
                                    'build-error') if t in tags]
         return size + '/' + ('snap' if case['snap'] else 'nosnap') + '/' + ('+'.join(t.split('-')[0] + t.split('-')[-1] for t in interesting) or 'plain')
 
